@@ -86,7 +86,7 @@ Lemma horizontal_dircos_R g bm i l h k :
     sqrt ((Q2R dx)² + (Q2R dy)² + (Q2R dz)²).
 Proof.
   intros H dx dy dz NZ. unfold horizontal_spec_at in H.
-  destruct H as [_ [_ [_ [_ [_ [_ [_ [_ [_ [_ [_ [_ [_ [Hc Hr]]]]]]]]]]]]]]. cbn zeta in Hc, Hr.
+  destruct H as [_ [_ [_ [_ [_ [_ [_ [_ [_ [_ [_ [_ [_ [Hc [Hr _]]]]]]]]]]]]]]]. cbn zeta in Hc, Hr.
   fold dx in Hc, Hr. fold dy in Hc, Hr. fold dz in Hc, Hr.
   unfold surdR. rewrite (Qeq_eqR _ _ Hc), (Qeq_eqR _ _ Hr).
   rewrite Q2R_inv by exact NZ. rewrite !Q2R_plus, !Q2R_mult, !Q2R_sq.
